@@ -77,11 +77,121 @@ def ldap_result_code_map(ctx, report, RULE='C09.R16'):
     report.floor(RULE, 30, 'LDAP result codes')
 
 
+
+def openvpn_key_id_accepted(ctx, report, RULE='C09.R18'):
+    """The first octet of an OpenVPN packet is ``opcode << 3 | key_id``: the parser has to take the class for every key id 0..7
+    (a renegotiated session counts the key id up) and to decline, with InvalidType, the opcodes of the sibling classes.
+    ``parse_header`` of every concrete packet class is evaluated (sa.miniexec) with a model parser on a minimal header - first
+    octet, eight octets of session id, an empty acknowledgement array - for the eight key ids of its own opcode and for the
+    opcodes of the other classes."""
+    from ..miniexec import Evaluator, Native, NativeError, Raised, Unsupported, class_call_hook
+    report.rule(RULE, 'OpenVPN first octet: every key id 0..7 under the opcode of the class is accepted, the opcodes of the sibling classes are declined')
+    base = ctx.model.try_cls('OpenVpnPacketBase')
+    if base is None:
+        report.error('%s: OpenVpnPacketBase vanished' % RULE)
+        return
+    codes = {}
+    for name, v in (getattr(ctx.model.try_cls('OpenVpnOpCode'), 'enum_members', None) or {}).items():
+        if isinstance(v, ast.Constant):
+            v = v.value
+        if isinstance(v, int):
+            codes[name] = v
+    if len(codes) < 2:
+        report.undecided.append('%s: the opcode enumeration is not readable' % RULE)
+        return
+
+    class Short(NativeError):
+        pass
+    Short.__name__ = 'NotEnoughData'
+
+    class Parser(Native):
+        def __init__(self, data):
+            self.data, self.pos, self.values = bytes(data), 0, {}
+
+        @property
+        def unparsed_length(self):
+            return len(self.data) - self.pos
+
+        @property
+        def parsed_length(self):
+            return self.pos
+
+        def parse_numeric(self, name, size, converter=int):
+            if self.unparsed_length < size:
+                raise Short(size - self.unparsed_length)
+            self.values[name] = int.from_bytes(self.data[self.pos:self.pos + size], 'big')
+            self.pos += size
+
+        def parse_numeric_array(self, name, item_num, item_size, converter=int):
+            out = []
+            for _ in range(item_num):
+                self.parse_numeric('#', item_size)
+                out.append(self.values.pop('#'))
+            self.values[name] = out
+
+        def __getitem__(self, name):
+            return self.values[name]
+
+    current = {}
+
+    def extra(node, ev):
+        if ast.unparse(node.func) in ('ParserBinary',):
+            return Parser(ev.ev(node.args[0]))
+        if isinstance(node.func, ast.Attribute) and node.func.attr == 'get_op_code' and not node.args:
+            return current['code']      # the member of the IntEnum as the integer it is
+        return NotImplemented
+    classes = []
+    for c in ctx.model.all_subclasses(base):
+        goc, ph = c.resolve('get_op_code'), c.resolve('parse_header')
+        if goc is None or ph is None or goc.cls is base:
+            continue
+        names = [x.attr for x in ast.walk(goc.node) if isinstance(x, ast.Attribute) and isinstance(x.value, ast.Name) and x.value.id == 'OpenVpnOpCode']
+        if len(names) == 1 and names[0] in codes:
+            classes.append((c, ph, codes[names[0]]))
+    if len(classes) < 2:
+        report.undecided.append('%s: the opcodes of the packet classes are not readable' % RULE)
+        return
+    try:
+        for c, ph, code in classes:
+            report.touch(ph)
+            hook = class_call_hook(c, extra, ctx.model)
+            current['code'] = code
+
+            class Cls(Native):
+                _repo_class = c
+
+            def run(first):
+                data = bytes([first]) + bytes(8) + b'\x00' + bytes(8)
+                try:
+                    Evaluator({'cls': Cls(), 'parsable': data}, hook, hook.name_hook_for(ph.module, None)).function(ph.node)
+                except (Short, Raised) as e:
+                    return str(e) or type(e).__name__
+                return None
+            for key_id in range(8):
+                report.count(RULE)
+                refused = run(code << 3 | key_id)
+                if refused is not None:
+                    report.add(RULE, '%s@key-id[%s]' % (ph.construct, c.name), '%s.parse_header refuses the first octet 0x%02x (opcode %d, key id %d): %s' % (
+                        c.name, code << 3 | key_id, code, key_id, refused[:60]))
+                    break
+            for _, _, other in classes:
+                if other != code:
+                    report.count(RULE)
+                    refused = run(other << 3)
+                    if refused is None or 'InvalidType' not in refused:
+                        report.add(RULE, '%s@foreign-opcode[%s]' % (ph.construct, c.name), '%s.parse_header does not decline opcode %d with InvalidType (%s)' % (
+                            c.name, other, refused))
+                        break
+    except (Unsupported, AttributeError, TypeError, KeyError) as e:
+        report.undecided.append('%s: parse_header not evaluable: %s' % (RULE, str(e)[:100]))
+        return
+
 def check(ctx, report):
     with open(os.path.join(HERE, 'reviewed.json')) as f:
         reviewed = json.load(f).get('C09', {})
     speccheck.run(ctx, report, 'C09', 'opp.json', MODULES, reviewed)
     return_class(ctx, report)
+    openvpn_key_id_accepted(ctx, report)
     tag_discrimination(ctx, report)
     constants(ctx, report)
     ldap_schema(ctx, report)
